@@ -70,6 +70,7 @@ class Engine:
         self.globals = {}
         self.specs = {}
         self.native_ns = {}
+        self.native_imports = {}
         self.assumptions = []  # free-text list of assumed facts (axioms, external contracts)
         self._oid = itertools.count(1)
         self._ast_cache = {}
@@ -80,7 +81,7 @@ class Engine:
         for b in (
             "len min max range enumerate zip list set tuple isinstance is_infinite abs sum any all "
             "forall exists implies iff old product sorted reversed dict int bool ite cover callable getattr "
-            "frozenset print map"
+            "frozenset print map the fin is_fin"
         ).split():
             self.globals[b] = Builtin(b)
         self.tenv.ensure_ext()
@@ -114,6 +115,7 @@ class Engine:
         if truthy:
             self.ctx.declare_fun(truthy, [name], "Bool")
             self.ops.ref_truthy[name] = truthy
+            self.globals[truthy] = SpecFun(truthy, [("x", pt)], BOOL)
         if order:
             self.ctx.declare_fun(order, [name, name], "Bool")
             self.ops.ref_order[name] = order
@@ -200,7 +202,7 @@ class Engine:
         return self._ast_cache[module]
 
     def find_function(self, target):
-        module, qual = target.split(":")
+        module, qual = target.split("@")[0].split(":")
         tree, sha, path = self.module_ast(module)
         node = tree
         for part in qual.split("."):
